@@ -125,9 +125,10 @@ class Excel:
                 # A:A range case
                 return [[i] for i in self._get_vertical_range(first, second)]
             # A:C range case
-            result = list((self._get_vertical_range(Cell(first.title, column_index, None), Cell(
+            columns = list((self._get_vertical_range(Cell(first.title, column_index, None), Cell(
                 first.title, column_index, None)) for column_index in range(first.column, second.column+1)))
-            return result
+            # rows of the area, like every other range form (the columns all have the height of the sheet)
+            return [list(row) for row in zip(*columns)]
         elif isinstance(first.row, int) and isinstance(second.row, int) and first.row >= 0 and second.row >= 0:
             return self._get_matrix(first, second)
         else:
